@@ -529,8 +529,9 @@ class World(object):
         if e.readonly: codes.add(NO_MOD)
         if a.owner is not e: codes.add(NOT_FOUND)
         if codes: return Res.err(codes)
+        clash = (self._name_clash(e, a.name) if a.local is None else len(self._find_attr_ns(e, a.ns, a.local)) > 1)
         self._remove_attr(e, a)
-        return Res.ok(a, self.gray)
+        return Res.ok(a, self.gray or ('removeAttributeNode on an element with two attributes of that name (DOM Level 1 / namespace-aware mix)' if clash else None))
     def getAttribute(self, e, name):
         f = self._find_attr(e, name)
         return Res.ok(('s', f[0].value if f else ''), 'two attributes share the nodeName' if len(f) > 1 else None)
